@@ -22,6 +22,14 @@ def c09ShowDicts (ds : List (Dict Chunk)) : String :=
 def c09Cross (wl wr : Int) (rows other : List Row) : List Row :=
   rows.map fun r => { r with id := r.id * 1000 + (other.filter (near wl wr r)).length }
 
+/-- NOT window-local on purpose: every output row tells which batch `compute` was called with
+(id of the first row of the batch and its length) — makes the input cache rule observable -/
+def c09Batch (rows : List Row) : List Row :=
+  let first := match rows with
+    | [] => 0
+    | r :: _ => r.id
+  rows.map fun r => { r with id := r.id * 1000000 + first * 1000 + rows.length }
+
 /-- built-in computations, selectable by name; each takes the row lists of the input kinds in
 keyword order (all but `cross` look at the first kind only) -/
 def c09Comp (wl wr : Int) (name : String) : Option (List (List Row) → List Row) :=
@@ -30,6 +38,7 @@ def c09Comp (wl wr : Int) (name : String) : Option (List (List Row) → List Row
   | ["ident"] => some (first fIdent)
   | ["count"] => some (first (fCount wl wr))
   | ["sum"] => some (first (fSum wl wr))
+  | ["batch"] => some (first c09Batch)
   | ["gap", g] => do let g ← g.toInt?; pure (first (fGap g))
   | ["pair0", g] => do let g ← g.toInt?; pure (first (fPair 0 g))
   | ["pair1", g] => do let g ← g.toInt?; pure (first (fPair 1 g))
